@@ -386,6 +386,14 @@ def stepSinkOp (d : DState) (op : String) (toks impl : List String) : Option (DS
       | some e, some y => [clauseEq "C11.running" e y]
       | _, _ => []
     some (report d op { model := renderOut (some r.2), impl := implS, kind := i.kind, clauses := cl })
+  | ["kclone", a, b] => do
+    -- a copy of a sink is the sink its source is (same samples received)
+    let i ← d.getSink (← a.toNat?)
+    some (report ((d.putSink (← b.toNat?) i).flag "sink.clone") op { model := "ok", impl := implS, kind := i.kind })
+  | ["kclonefrom", a, b] => do
+    let i ← d.getSink (← b.toNat?)
+    let _ ← d.getSink (← a.toNat?)
+    some (report ((d.putSink (← a.toNat?) i).flag "sink.clonefrom") op { model := "ok", impl := implS, kind := i.kind })
   | ["fin", id] => do
     let id ← id.toNat?
     let i ← d.getSink id
@@ -431,6 +439,15 @@ def stepI64SinkOp (d : DState) (op : String) (toks impl : List String) : Option 
       let _ := pick
       [{ name := name, ok := got == some (toString m), expected := toString m }]
   match toks with
+  | ["kclone", a, b] => do
+    let k ← get (← a.toNat?)
+    let (kind, h) := hget (← a.toNat?)
+    some (report ((hput (put d (← b.toNat?) k) (← b.toNat?) kind h).flag "sink.clone") op { model := "ok", impl := implS, kind := "sink-i64" })
+  | ["kclonefrom", a, b] => do
+    let k ← get (← b.toNat?)
+    let _ ← get (← a.toNat?)
+    let (kind, h) := hget (← b.toNat?)
+    some (report ((hput (put d (← a.toNat?) k) (← a.toNat?) kind h).flag "sink.clonefrom") op { model := "ok", impl := implS, kind := "sink-i64" })
   | ["new", id, kind] => do
     let d := hput d (← id.toNat?) kind []
     let k : SinkModels.Sk I64 ← match kind with
@@ -567,6 +584,9 @@ def parseLeaves (s : String) : Option (List (PipeRegistry.Leaf V)) :=
     | "p_affine" :: params => do pure (.own (.affine (← (parseKV params).val "a") (← (parseKV params).val "b")))
     | "p_lag" :: params => (parseKV params).val "init" |>.map (fun v => .own (.lag v))
     | "p_max" :: _ => some (.own (.runMax none))
+    -- a stage with a side chain (it owns a source pipe of its own: a constant `b` through an identity stage, polled once
+    -- per sample): for the model the stage `x ↦ x + b`
+    | "p_side" :: params => (parseKV params).val "b" |>.map (fun b => .own (.affine 1 b))
     | kind :: params => (mkCfg kind (parseKV params)).map (fun c => .lib c.init)
     | [] => none)
 
@@ -724,6 +744,14 @@ def step (d : DState) (line : String) : DState × List String :=
   if line.isEmpty || line.startsWith "#" then (d, []) else
   let (op, impl) := splitArrow line
   let toks := (op.splitOn " ").filter (· != "")
+  -- `freshcfg a b`: a new instance built from the configuration instance `a` HANDS OUT (`with_config(a.config())`);
+  -- for the model the same thing as `fresh a b`, a new instance with the configuration `a` was given
+  let toks := match toks with
+    | "freshcfg" :: rest => "fresh" :: rest
+    -- `stset a b`: the state of `a` overwritten in place (`*a.state_mut() = b's state`), `b` an instance of the same
+    -- configuration: for the model `a` is then what `b` is
+    | "stset" :: rest => "clonefrom" :: rest
+    | t => t
   match toks with
   | ["case", n] =>
     let out := closeCase d
